@@ -176,6 +176,7 @@ fn main() -> anyhow::Result<()> {
         let mut hotset: Vec<u64> = Vec::new();
         let mut written_at: HashMap<u64, usize> = HashMap::new();
         let mut computed_at: HashMap<(u64, i64), usize> = HashMap::new();
+        let mut recent: Vec<i64> = Vec::new(); // queries searched earlier in this behaviour (candidates for multi-query batches)
         let meta = |i: u64| -> Meta {
             let mut m = Meta::new();
             m.insert("k1".into(), format!("val{}", 1 + i % 2));
@@ -232,66 +233,84 @@ fn main() -> anyhow::Result<()> {
                     let q = st["q"].as_i64().unwrap_or(0);
                     let k = st["k"].as_u64().unwrap_or(1) as usize;
                     let scope = st["s"].as_u64().unwrap_or(1);
-                    let qv = geo.vec32(q);
                     let flavour = rng.gen_range(0..10);
                     let before = eng.stats();
-                    let (res, cacheable, fl): (anyhow::Result<(Vec<kyrodb_engine::SearchResult>, SearchExecutionPath)>, bool, &str) = match flavour {
-                        0 => (guarded(|| eng.knn_search_with_ef_detailed_scoped(&qv, k, Some(64), scope)), false, "ef"),
-                        1 => (
-                            guarded(|| {
-                                eng.knn_search_batch_with_ef_detailed_scoped(&[qv.clone()], k, None, scope)
-                                    .map(|mut r| r.pop().unwrap_or((vec![], SearchExecutionPath::Degraded)))
-                            }),
-                            true,
-                            "batch",
-                        ),
-                        2 => (guarded(|| rt.block_on(eng.knn_search_with_timeouts_with_ef_scoped(&qv, k, None, scope))), true, "timed"),
-                        _ => (guarded(|| eng.knn_search_with_ef_detailed_scoped(&qv, k, None, scope)), true, "plain"),
+                    // the queries evaluated by this step: the step's own query, and for the batch flavour up to three more
+                    // (earlier queries of this behaviour - likely cached - in seeded order), all judged position by position
+                    let mut qs: Vec<i64> = vec![q];
+                    if flavour == 1 && !recent.is_empty() {
+                        let extra = rng.gen_range(0..=3usize.min(recent.len()));
+                        for _ in 0..extra {
+                            let cand = recent[rng.gen_range(0..recent.len())];
+                            let at = rng.gen_range(0..=qs.len());
+                            qs.insert(at, cand);
+                        }
+                    }
+                    let qvs: Vec<Vec<f32>> = qs.iter().map(|x| geo.vec32(*x)).collect();
+                    let qv = geo.vec32(q);
+                    type One = anyhow::Result<(Vec<kyrodb_engine::SearchResult>, SearchExecutionPath)>;
+                    let (results, cacheable, fl): (Vec<One>, bool, &str) = match flavour {
+                        0 => (vec![guarded(|| eng.knn_search_with_ef_detailed_scoped(&qv, k, Some(64), scope))], false, "ef"),
+                        1 => match guarded(|| eng.knn_search_batch_with_ef_detailed_scoped(&qvs, k, None, scope)) {
+                            Ok(v) if v.len() == qs.len() => (v.into_iter().map(Ok).collect(), true, "batch"),
+                            Ok(v) => (vec![Err(anyhow::anyhow!("batch of {} queries answered with {} results", qs.len(), v.len()))], true, "batch"),
+                            Err(e) => (vec![Err(e)], true, "batch"),
+                        },
+                        2 => (vec![guarded(|| rt.block_on(eng.knn_search_with_timeouts_with_ef_scoped(&qv, k, None, scope)))], true, "timed"),
+                        _ => (vec![guarded(|| eng.knn_search_with_ef_detailed_scoped(&qv, k, None, scope))], true, "plain"),
                     };
                     let after = eng.stats();
-                    n_search += 1;
-                    match res {
-                        Ok((r, path)) => {
-                            let degraded = matches!(path, SearchExecutionPath::Degraded)
-                                || after.partial_results_returned != before.partial_results_returned
-                                || after.cold_tier_timeouts != before.cold_tier_timeouts
-                                || after.circuit_breaker_rejections != before.circuit_breaker_rejections
-                                || after.worker_saturation_count != before.worker_saturation_count
-                                || after.queries_rejected != before.queries_rejected;
-                            let hit = matches!(path, SearchExecutionPath::CacheHit);
-                            if hit {
-                                n_hits += 1;
-                            }
-                            let mut must: Vec<u64> = hotset.clone();
-                            if hit {
-                                let since = computed_at.get(&(scope, q)).copied().unwrap_or(0);
-                                for (i, at) in &written_at {
-                                    if *at > since && !must.contains(i) {
-                                        must.push(*i);
-                                    }
+                    let whole = results.len() == qs.len();
+                    for (pos, res) in results.into_iter().enumerate() {
+                        let (q, qv) = if whole { (qs[pos], &qvs[pos]) } else { (q, &qv) };
+                        n_search += 1;
+                        match res {
+                            Ok((r, path)) => {
+                                let degraded = matches!(path, SearchExecutionPath::Degraded)
+                                    || after.partial_results_returned != before.partial_results_returned
+                                    || after.cold_tier_timeouts != before.cold_tier_timeouts
+                                    || after.circuit_breaker_rejections != before.circuit_breaker_rejections
+                                    || after.worker_saturation_count != before.worker_saturation_count
+                                    || after.queries_rejected != before.queries_rejected;
+                                let hit = matches!(path, SearchExecutionPath::CacheHit);
+                                if hit {
+                                    n_hits += 1;
                                 }
-                            } else if cacheable {
-                                computed_at.insert((scope, q), si);
-                            }
-                            must.sort_unstable();
-                            let sorted = r.windows(2).all(|w| w[0].distance <= w[1].distance || (w[0].distance - w[1].distance).abs() < 1e-6);
-                            let resj: Vec<Value> = r
-                                .iter()
-                                .map(|x| {
-                                    let (dok, rd) = match cur.get(&x.doc_id) {
-                                        Some(v) => {
-                                            let rd = geo.refdist(&qv, v);
-                                            (((x.distance as f64) - rd).abs() <= 2e-4 * (1.0 + rd.abs()), rd)
+                                let mut must: Vec<u64> = hotset.clone();
+                                if hit {
+                                    let since = computed_at.get(&(scope, q)).copied().unwrap_or(0);
+                                    for (i, at) in &written_at {
+                                        if *at > since && !must.contains(i) {
+                                            must.push(*i);
                                         }
-                                        None => (false, -1.0),
-                                    };
-                                    json!({"id": if x.doc_id >= 1 && x.doc_id <= ni { x.doc_id } else { 0 }, "dok": dok, "dist": x.distance, "ref": rd})
-                                })
-                                .collect();
-                            outw.emit(&json!({"ev": "search", "s": scope, "q": q, "k": k, "res": resj, "must": must, "sorted": sorted,
-                                "degraded": degraded, "path": path_name(path), "cacheable": cacheable, "flavour": fl, "qclen": qc.len()}));
+                                    }
+                                } else if cacheable {
+                                    computed_at.insert((scope, q), si);
+                                }
+                                must.sort_unstable();
+                                let sorted = r.windows(2).all(|w| w[0].distance <= w[1].distance || (w[0].distance - w[1].distance).abs() < 1e-6);
+                                let resj: Vec<Value> = r
+                                    .iter()
+                                    .map(|x| {
+                                        let (dok, rd) = match cur.get(&x.doc_id) {
+                                            Some(v) => {
+                                                let rd = geo.refdist(qv, v);
+                                                (((x.distance as f64) - rd).abs() <= 2e-4 * (1.0 + rd.abs()), rd)
+                                            }
+                                            None => (false, -1.0),
+                                        };
+                                        json!({"id": if x.doc_id >= 1 && x.doc_id <= ni { x.doc_id } else { 0 }, "dok": dok, "dist": x.distance, "ref": rd})
+                                    })
+                                    .collect();
+                                outw.emit(&json!({"ev": "search", "s": scope, "q": q, "k": k, "res": resj, "must": must, "sorted": sorted,
+                                    "degraded": degraded, "path": path_name(path), "cacheable": cacheable, "flavour": fl, "qclen": qc.len(),
+                                    "batch": qs.len(), "pos": pos}));
+                            }
+                            Err(e) => outw.emit(&json!({"ev": "search_error", "s": scope, "q": q, "k": k, "flavour": fl, "why": e.to_string()})),
                         }
-                        Err(e) => outw.emit(&json!({"ev": "search_error", "s": scope, "q": q, "k": k, "flavour": fl, "why": e.to_string()})),
+                    }
+                    if !recent.contains(&q) {
+                        recent.push(q);
                     }
                 }
                 other => outw.emit(&json!({"ev": "unknown", "t": other})),
